@@ -16,11 +16,12 @@ ID = "C04"
 FLAVS = ["full", "bare", "notsync"]
 FORMS = ["inline", "where", "impl", "split", "dup"]
 MOCKS = ["none", "mockall", "mockall_false", "api_only", "unimock", "unimock_false"]
-BN = ["B0", "B1", "B2"]
+# two of the three bounds are instantiations of ONE generic trait: a bound is its whole path, generic arguments included
+BN = ["B0", "G<u8>", "G<u16>"]
 
 
 def header():
-    L = ["pub mod pr {", "    use super::rt;", "    pub trait B0 {} pub trait B1 {} pub trait B2 {}"]
+    L = ["pub mod pr {", "    use super::rt;", "    pub trait B0 {} pub trait G<T> {}"]
     field = {"full": "()", "bare": "rt::BareMarker", "notsync": "rt::NotSyncMarker"}
     for mask in range(8):
         for fl in FLAVS:
@@ -28,7 +29,7 @@ def header():
             L.append("    pub struct %s(pub %s);" % (t, field[fl]))
             for b in range(3):
                 if mask & (1 << b):
-                    L.append("    impl B%d for %s {} impl B%d for ::entrait::Impl<%s> {}" % (b, t, b, t))
+                    L.append("    impl %s for %s {} impl %s for ::entrait::Impl<%s> {}" % (BN[b], t, BN[b], t))
     L.append("}")
     return "\n".join(L) + "\n"
 
